@@ -78,7 +78,8 @@ def run_case(arg):
                 break
             # identical images, same scan direction: fixed point of translation alignment
             same = [images[0]] * nimg
-            for k, u in ((1, 8), (2, 1), (3, 4)) if not quick else ((1 + idx % 3, [8, 1, 4][idx % 3]),):
+            for k, u in ((1, 8), (2, 1), (3, 4), (4, 3), (1, 5), (2, 7), (3, 16)) if not quick else \
+                    ((1 + idx % 3, [8, 1, 4][idx % 3]), (1 + (idx + 1) % 4, [3, 5, 7, 2][idx % 4])):
                 dc = build(same, [theta] * nimg, pf, k)
                 before = [kn.copy() for kn in dc.knots]
                 dc.align_translation(upsample_factor=u, show_merged=False, show_images=False)
